@@ -7,6 +7,10 @@
 //        getx <A>          -> the other getters: "<getter> ok <rendering>" | "<getter> fail" (object getters for obj/cobj only)
 //        tostr <A>         -> environment lines "g6 <hex>" (finite double: snprintf %.6g) / "addr <decimal>" (pointer payload),
 //                             then "t <hex of getType()>" and "s <hex of toString()>"
+//        eqapi <E> <A>     -> whole-scenario check inside a real test: the expectation f(p = E) is set up and the actual call f(p = A)
+//                             made through a chosen typed entry point of the API, then checkExpectations(): "p <1 pass|0 fail>"
+//                             E, A = <entry>.<kind>:<n>, entry = ovl (C++ withParameter overload) | exp (C++ explicit
+//                             with…IntParameter) | c (C mock_c()->…->with…IntParameters), kind = int uint long ulong llong ullong
 //        compat <A> <B>    -> "c <a.compatibleForCopying(b)> <b.compatibleForCopying(a)>"
 //        name <X> <Y>      -> MockNamedValue(X): "n0 <getName>" "t0 <getType>" "s0 <toString>"; setName(Y): "n1 <getName>"
 //        ladd <name> <A> / lget <name> / llist / lclear          the case's MockNamedValueList (items numbered from 1)
@@ -24,6 +28,8 @@
 // The echoed op is canonical (integers re-printed from the stored C value).
 #include "fixture.h"
 #include "CppUTestExt/MockNamedValue.h"
+#include "CppUTestExt/MockSupport.h"
+#include "CppUTestExt/MockSupport_c.h"
 #include <cerrno>
 #include <climits>
 #include <cstdint>
@@ -232,6 +238,68 @@ void getter_body() {
     g_returned = true;
 }
 
+// ---- eqapi: expectation and actual call through typed API entry points
+struct ApiVal { std::string api, kind; long long s; unsigned long long u; std::string canon; };
+bool parse_apival(const std::string& tok, ApiVal& v) {
+    size_t d = tok.find('.'), c = tok.find(':');
+    if (d == std::string::npos || c == std::string::npos || d > c) return false;
+    v.api = tok.substr(0, d); v.kind = tok.substr(d + 1, c - d - 1);
+    std::string rest = tok.substr(c + 1);
+    if (v.api != "ovl" && v.api != "exp" && v.api != "c") return false;
+    char buf[64]; v.s = 0; v.u = 0;
+    if (v.kind == "int") { if (!parse_signed(rest, INT_MIN, INT_MAX, v.s)) return false; snprintf(buf, sizeof buf, "%lld", v.s); }
+    else if (v.kind == "long" || v.kind == "llong") { if (!parse_signed(rest, LLONG_MIN, LLONG_MAX, v.s)) return false; snprintf(buf, sizeof buf, "%lld", v.s); }
+    else if (v.kind == "uint") { if (!parse_unsigned(rest, UINT_MAX, v.u)) return false; snprintf(buf, sizeof buf, "%llu", v.u); }
+    else if (v.kind == "ulong" || v.kind == "ullong") { if (!parse_unsigned(rest, ULLONG_MAX, v.u)) return false; snprintf(buf, sizeof buf, "%llu", v.u); }
+    else return false;
+    v.canon = v.api + "." + v.kind + ":" + buf;
+    return true;
+}
+ApiVal g_ev, g_av;
+void eqapi_body() {
+    mock().clear();
+    const ApiVal& e = g_ev; const ApiVal& a = g_av;
+    if (e.api == "c") {
+        MockExpectedCall_c* x = mock_c()->expectOneCall("f");
+        if (e.kind == "int") x->withIntParameters("p", (int) e.s);
+        else if (e.kind == "uint") x->withUnsignedIntParameters("p", (unsigned int) e.u);
+        else if (e.kind == "long") x->withLongIntParameters("p", (long int) e.s);
+        else if (e.kind == "ulong") x->withUnsignedLongIntParameters("p", (unsigned long int) e.u);
+        else if (e.kind == "llong") x->withLongLongIntParameters("p", (cpputest_longlong) e.s);
+        else x->withUnsignedLongLongIntParameters("p", (cpputest_ulonglong) e.u);
+    }
+    else {
+        MockExpectedCall& x = mock().expectOneCall("f");
+        bool o = e.api == "ovl";
+        if (e.kind == "int") { if (o) x.withParameter("p", (int) e.s); else x.withIntParameter("p", (int) e.s); }
+        else if (e.kind == "uint") { if (o) x.withParameter("p", (unsigned int) e.u); else x.withUnsignedIntParameter("p", (unsigned int) e.u); }
+        else if (e.kind == "long") { if (o) x.withParameter("p", (long int) e.s); else x.withLongIntParameter("p", (long int) e.s); }
+        else if (e.kind == "ulong") { if (o) x.withParameter("p", (unsigned long int) e.u); else x.withUnsignedLongIntParameter("p", (unsigned long int) e.u); }
+        else if (e.kind == "llong") { if (o) x.withParameter("p", (cpputest_longlong) e.s); else x.withLongLongIntParameter("p", (cpputest_longlong) e.s); }
+        else { if (o) x.withParameter("p", (cpputest_ulonglong) e.u); else x.withUnsignedLongLongIntParameter("p", (cpputest_ulonglong) e.u); }
+    }
+    if (a.api == "c") {
+        MockActualCall_c* x = mock_c()->actualCall("f");
+        if (a.kind == "int") x->withIntParameters("p", (int) a.s);
+        else if (a.kind == "uint") x->withUnsignedIntParameters("p", (unsigned int) a.u);
+        else if (a.kind == "long") x->withLongIntParameters("p", (long int) a.s);
+        else if (a.kind == "ulong") x->withUnsignedLongIntParameters("p", (unsigned long int) a.u);
+        else if (a.kind == "llong") x->withLongLongIntParameters("p", (cpputest_longlong) a.s);
+        else x->withUnsignedLongLongIntParameters("p", (cpputest_ulonglong) a.u);
+    }
+    else {
+        MockActualCall& x = mock().actualCall("f");
+        bool o = a.api == "ovl";
+        if (a.kind == "int") { if (o) x.withParameter("p", (int) a.s); else x.withIntParameter("p", (int) a.s); }
+        else if (a.kind == "uint") { if (o) x.withParameter("p", (unsigned int) a.u); else x.withUnsignedIntParameter("p", (unsigned int) a.u); }
+        else if (a.kind == "long") { if (o) x.withParameter("p", (long int) a.s); else x.withLongIntParameter("p", (long int) a.s); }
+        else if (a.kind == "ulong") { if (o) x.withParameter("p", (unsigned long int) a.u); else x.withUnsignedLongIntParameter("p", (unsigned long int) a.u); }
+        else if (a.kind == "llong") { if (o) x.withParameter("p", (cpputest_longlong) a.s); else x.withLongLongIntParameter("p", (cpputest_longlong) a.s); }
+        else { if (o) x.withParameter("p", (cpputest_ulonglong) a.u); else x.withUnsignedLongLongIntParameter("p", (cpputest_ulonglong) a.u); }
+    }
+    mock().checkExpectations();
+}
+
 const char* GETTERS[6] = { "getIntValue", "getUnsignedIntValue", "getLongIntValue", "getUnsignedLongIntValue",
                            "getLongLongIntValue", "getUnsignedLongLongIntValue" };
 const char* XGETTERS[13] = { "getBoolValue", "getDoubleValue", "getDoubleTolerance", "getStringValue", "getPointerValue",
@@ -259,6 +327,14 @@ void run_case(const vh::Case& c) {
             bool r1 = a.equals(b);
             bool r2 = b.equals(a);
             vh::emit("r %d %d", r1 ? 1 : 0, r2 ? 1 : 0);
+        }
+        else if (w[0] == "eqapi" && w.size() == 3) {
+            if (!parse_apival(w[1], g_ev) || !parse_apival(w[2], g_av)) { vh::emit("> skip"); continue; }
+            vh::emit("> eqapi %s %s", g_ev.canon.c_str(), g_av.canon.c_str());
+            size_t failures = vh::in_fixture(eqapi_body);
+            mock().clear();
+            MockNamedValue::setDefaultComparatorsAndCopiersRepository(def);
+            vh::emit("p %d", failures == 0 ? 1 : 0);
         }
         else if (w[0] == "compat" && w.size() == 3) {
             MockNamedValue a("a"), b("b");
